@@ -36,6 +36,8 @@ def jobs(tier):
         *[Job(name=f"include-form{f}", src="incl.c", group="C10.5 include search order", defs={"FORM": str(f)}, unwind=12, cbmc_flags=["--paths lifo"],
               redirect={"include_file": "stub_include_file", "expand_macro": "stub_expand_macro"},
               bounded="one directive per form, 2 search directories, symbolic file system", sample=["#include \"x.h\"", "#include <x.h>", "#include M with M -> <x.h>", "#include M with M -> \"x.h\""][f] + " with every existence pattern", **P) for f in range(4)],
+        Job(name="include-two-dirs", src="incl2.c", group="C10.5 include search order", unwind=12, cbmc_flags=["--paths lifo"],
+            redirect={"include_file": "stub_include_file", "expand_macro": "stub_expand_macro"}, bounded="two directives in files of two directories, 2 search directories", sample="two #include \"x.h\" directives standing in files of different directories", **P),
         Job(name="include-not-a-name", src="incl.c", group="C10.5 include search order", defs={"FORM": "4"}, unwind=12, cbmc_flags=["--paths lifo"],
             redirect={"include_file": "stub_include_file", "expand_macro": "stub_expand_macro"}, bounded="one directive", sample="#include foo (not a macro)", **dict(P, cut=["error", "error_at", "verror_at"])),
         *[Job(name=f"include-guard-pro{g}" + (f"-k{k0}" if k0 is not None else ""), src="guard.c", group="C10.6 re-inclusion shortcuts",
